@@ -707,10 +707,10 @@ package device
 //@   let cA := d.config.OpenRGB.Colors.Active
 //@   let cE := d.config.OpenRGB.Colors.ActiveExternal
 //@   loop 19 invariant [C17] forall m byte, j int :: visited(m + byte(offset)) ==> ledAt(ledArray, MidiKeyMappings, indexMap, d.mapping, m, j, cE, cE)
-//@   loop 20 invariant [C17] forall m byte, j int :: visitedIn(19, m + byte(offset)) && m != local(note, 3) ==> ledAt(ledArray, MidiKeyMappings, indexMap, d.mapping, m, j, cE, cE)
+//@   loop 20 invariant [C17] forall m byte, j int :: visitedIn(19, m + byte(offset)) && m != local(note, here) ==> ledAt(ledArray, MidiKeyMappings, indexMap, d.mapping, m, j, cE, cE)
 // (the range is written as "j < last || j == last" so that the step's case split has an equality literal: the solvers do not
 //  derive j == last from two bit-vector comparisons fast enough)
-//@   loop 20 invariant [C17] forallp j int :: (j < idx() - 1 || j == idx() - 1) ==> ledAt(ledArray, MidiKeyMappings, indexMap, d.mapping, local(note, 3), j, cE, cE)
+//@   loop 20 invariant [C17] forallp j int :: (j < idx() - 1 || j == idx() - 1) ==> ledAt(ledArray, MidiKeyMappings, indexMap, d.mapping, local(note, here), j, cE, cE)
 //@   loop 21 invariant [C17] forall m byte, j int :: has(d.externalNoteTracker[d.channel], m + byte(offset)) ==> ledAt(ledArray, MidiKeyMappings, indexMap, d.mapping, m, j, cE, cA)
 //@   loop 22 invariant [C17] forall m byte, j int :: has(d.externalNoteTracker[d.channel], m + byte(offset)) ==> ledAt(ledArray, MidiKeyMappings, indexMap, d.mapping, m, j, cE, cA)
 //@   callassert (*openrgb-go.Client).UpdateLEDs [C17] locked[d.eventProcessMutex] ==> (forall m byte, j int :: has(d.externalNoteTracker[d.channel], m + byte(offset)) ==> ledAt(colors, MidiKeyMappings, indexMap, d.mapping, m, j, d.config.OpenRGB.Colors.ActiveExternal, d.config.OpenRGB.Colors.Active))
